@@ -18,6 +18,8 @@ def cases(tier, seed):
     for n, m in itertools.product(range(1, 7), repeat=2):
         for inverse in (False, True):
             yield dict(fn="fourier.fft", args=dict(shape=(n,), oshape=[m], center=True, inverse=inverse, seed=seed))
+            if (n + m) % 2 == 0:
+                yield dict(fn="fourier.fft", args=dict(shape=(n,), oshape=[m], center=True, norm=None, inverse=inverse, seed=seed))
     # 2-D output shapes: pad one axis / crop the other, including output shapes with the SAME number of elements as the input
     for shape, osh in (((3, 4), [5, 2]), ((4, 3), [4, 6]), ((2, 5), [1, 1]), ((4, 6), [6, 4]), ((2, 6), [3, 4]), ((3, 4), [4, 3]), ((2, 3), [3, 2]), ((1, 6), [2, 3])):
         yield dict(fn="fourier.fft", args=dict(shape=shape, oshape=osh, center=True, seed=seed))
@@ -28,4 +30,4 @@ def cases(tier, seed):
 
 def groups(tier, seed):
     yield dict(name="fft/ifft vs the explicit DFT matrix", bound="rank 1..2 extents 1..5 (7 thorough), three rank-3 shapes, every axes subset incl. negative, "
-               "center x norm x inverse, centred oshape 1..6 -> 1..6 and eight 2-D pad/crop mixtures incl. equal element counts, dtypes complex64/128/float32/64", cases=cases(tier, seed))
+               "center x norm x inverse, centred oshape 1..6 -> 1..6 (both norms) and eight 2-D pad/crop mixtures incl. equal element counts, dtypes complex64/128/float32/64", cases=cases(tier, seed))
